@@ -12,10 +12,19 @@ mj_readCtrl / mj_readSensor at query times {t, t-delay, t-0.5h, t-1.5h, t+h} und
 
 The initial buffer of make_data / reset_data (kernel io._reset_history) is validated against mj_makeData /
 mj_resetData at depth 0 of every configuration, init_ctrl_history / init_sensor_history against
-mj_initCtrlHistory / mj_initSensorHistory (explicit times, times=None, per-world values).
+mj_initCtrlHistory / mj_initSensorHistory (explicit past times, times reaching into the future so that the next
+inserts are exact-match / out-of-order / replace-oldest inserts, times=None, per-world values).
+
+Extra family loop=obs (beyond the DESIGN plan): the observe-then-act loop forward(); choose ctrl; step() -- the
+history and outputs are also compared after every forward() (mj_forward never writes the history).
+
+Violation keys: <family>:start=<start>:[loop=obs:]<field>:<element class>[:interp=<model interp>] where the element
+class is delay=<..>[:interval=<..>:grid=<on|off|na>] (grid=off: the ideal sample times phase - k*period are not
+multiples of the timestep).  nsample / sensor type / timestep are in the message, not in the key.
 """
 
 import copy
+import os
 
 import numpy as np
 
@@ -29,11 +38,14 @@ RULE = (
   "{nsample} x {start} with 76 sensors (delay in {0,h,2.5h,3h,>span} x interval in {none, 2h, 2h phase -0.5h, 2.5h, 2.5h phase "
   "-0.75h} x interp {zoh,linear,cubic} + an undelayed twin); per configuration all words of length <= L over {0,1,-0.5}: "
   "state = (history buffer, time) at a prefix-tree node (hashed from MuJoCo's buffer), transition = one step; every word is "
-  "replayed on MuJoCo C and compared after every step; non-trivial = some delayed output is non-zero and differs from the "
+  "replayed on MuJoCo C and compared after every step; starts: make_data, put_data(fresh MjData), put_data(MjData after 3 steps), "
+  "reset_data after 5 dirty steps, init_*_history (past times / future times / times=None); plus the observe-then-act loop "
+  "(forward between steps) from make_data; non-trivial = some delayed output is non-zero and differs from the "
   "undelayed twin; distinct = hash of the configuration"
 )
 BOUNDS = {
-  "quick": "L=6 (729 worlds, 1093 words per configuration), nsample in {1,2,3,4}, 7 starts, 4 sensor types: 28 actuator + 112 sensor configurations",
+  "quick": "L=6 (729 worlds, 1093 words per configuration), nsample in {1,2,3,4}, 7 starts, 4 sensor types: 28 actuator + 112 sensor "
+  "configurations + 20 observe-then-act configurations",
   "thorough": "L=7 (2187 worlds, 3280 words per configuration), nsample in {1,2,3,4,5}, 7 starts, 4 sensor types",
 }
 ASSUMPTIONS = [
@@ -54,6 +66,7 @@ STARTS = ("make", "put0", "put", "reset", "init_t", "init_ahead", "init_none")
 SENSOR_TYPES = ("actuatorfrc", "jointpos", "jointvel", "framepos")
 INTERVALS = (None, (2.0, 0.0), (2.0, -0.5), (2.5, 0.0), (2.5, -0.75))  # (period, phase) in units of h
 DIRTY = (0.7, -0.3, 0.4, -0.9, 0.2)
+HIST_FIELDS = (("history.user", "abs"), ("history.cursor", "exact"), ("history.times", "abs"), ("history.values", "f32"))
 
 
 # ------------------------------------------------------------------------------------- scenarios
@@ -71,6 +84,11 @@ def scenarios(tier, seed):
     for n in ns:
       for start in STARTS:
         out.append(dict(fam="sens", typ=typ, n=n, start=start, L=L, variant=v))
+  # observe-then-act loop (forward between steps), from make_data
+  for n in ns:
+    out.append(dict(fam="act", n=n, start="make", L=L, variant=v, loop="obs"))
+    for typ in SENSOR_TYPES:
+      out.append(dict(fam="sens", typ=typ, n=n, start="make", L=L, variant=v, loop="obs"))
   return out
 
 
@@ -395,7 +413,7 @@ class Collector:
       ei, sub = labels[cidx]
       cls = elems[ei].cls
       # interpolation order is part of the class only where it can matter (values read back), not for buffer bookkeeping
-      key = f"{field}:{cls}" + ("" if field.startswith("history") or field == "time" else f":interp={elems[ei].cfg['interp']}")
+      key = f"{field}:{cls}" + ("" if "history" in field or field == "time" else f":interp={elems[ei].cfg['interp']}")
       if key in seen:
         continue
       seen.add(key)
@@ -411,7 +429,8 @@ class Collector:
     if k not in self.v:
       self.v[k] = dict(vkey=k, what=self.tag + what)
 
-  def violations(self, cap=60):
+  def violations(self, cap=None):
+    cap = cap or int(os.environ.get("C30_VKEY_CAP", "60"))
     return list(self.v.values())[:cap]
 
 
@@ -440,7 +459,7 @@ def execute(scn):
   nu = mjm.nu
   digits = word_digits(L)
   W = digits.shape[0]
-  pre = f"{fam}:start={scn['start']}:"
+  pre = f"{fam}:start={scn['start']}:" + ("loop=obs:" if scn.get("loop") == "obs" else "")
   col = Collector(pre, digits, tag=(f"{scn['typ']} sensors " if fam == "sens" else "") + f"nsample={scn['n']} h={h}: ")
 
   # ---- reference: MuJoCo C on the prefix tree
@@ -449,6 +468,7 @@ def execute(scn):
   level = [mjd0]
   recs = []
   states = set()
+  obs = scn.get("loop") == "obs"
 
   def record(level):
     r = dict(
@@ -463,6 +483,13 @@ def execute(scn):
     )
     for x in level:
       states.add(util.np_digest(x.history, np.array([x.time])))
+    if obs:
+      # observe-then-act loop: forward() with the control of the step just taken, before the next control is chosen
+      for x in level:
+        mujoco.mj_forward(mjm, x)
+      r["fwd_history"] = np.array([x.history for x in level])
+      r["fwd_sensordata"] = np.array([x.sensordata for x in level])
+      r["fwd_actuator_force"] = np.array([x.actuator_force for x in level])
     return r
 
   recs.append(record(level))
@@ -494,7 +521,7 @@ def execute(scn):
     col.block(i, "time", tnow.reshape(W, 1), r["time"][node].reshape(W, 1), [(0, "")], elems, 2e-5, "abs")
     H = d.history.numpy()
     Hw = r["history"][node]
-    for kk, (fname, mode) in enumerate((("history.user", "abs"), ("history.cursor", "exact"), ("history.times", "abs"), ("history.values", "f32"))):
+    for kk, (fname, mode) in enumerate(HIST_FIELDS):
       cc = hist_cols[kk]
       col.block(i, fname, H[:, cc], Hw[:, cc], hist_labels[kk], elems, 2e-5, mode)
     if i > 0:
@@ -505,6 +532,17 @@ def execute(scn):
         lab = [(e.idx, f"dim{j}") for e in elems for j in range(e.dim)]
         col.block(i, "sensordata", d.sensordata.numpy(), r["sensordata"][node], lab, elems, 2e-5, "f32")
     col.block(i, "read_ctrl" if fam == "act" else "read_sensor", mjw_reads(wp, mjw, fam, m, d, elems, qs, tnow), r["reads"][node], rlab, elems, 2e-5, "f32")
+    if obs:
+      mjw.forward(m, d)
+      Hf, Hfw = d.history.numpy(), r["fwd_history"][node]
+      for kk, (fname, mode) in enumerate(HIST_FIELDS):
+        cc = hist_cols[kk]
+        col.block(i, "after_forward." + fname, Hf[:, cc], Hfw[:, cc], hist_labels[kk], elems, 2e-5, mode)
+      if fam == "act":
+        col.block(i, "after_forward.actuator_force", d.actuator_force.numpy(), r["fwd_actuator_force"][node], [(k, "") for k in range(nu)], elems, 2e-5, "f32")
+      else:
+        lab = [(e.idx, f"dim{j}") for e in elems for j in range(e.dim)]
+        col.block(i, "after_forward.sensordata", d.sensordata.numpy(), r["fwd_sensordata"][node], lab, elems, 2e-5, "f32")
     # feature active on MuJoCo's own testimony: a delayed output is non-zero and differs from the undelayed twin
     if i > 0:
       if fam == "act":
@@ -521,7 +559,14 @@ def execute(scn):
   if scn["start"] == "init_t":
     _init_per_world(mujoco, wp, mjw, scn, mjm, m, elems, h, col, hist_cols, hist_labels)
 
-  counts = dict(states=len(states), transitions=transitions, traces_validated_against_impl=sum(3**i for i in range(L + 1)))
+  nodes = sum(3**i for i in range(L + 1))
+  counts = dict(
+    states=len(states),
+    transitions=transitions,
+    traces_validated_against_impl=nodes,  # every word of length <= L, compared in every world that extends it
+    history_buffers=sum(1 for e in elems if e.n),
+    reference_read_queries=len(rlab) * nodes,
+  )
   viol = col.violations()
   return dict(
     ok=not viol,
